@@ -5,6 +5,8 @@ package msg
 import (
 	"io"
 
+	jsonMsg "github.com/fatedier/golib/msg/json"
+
 	"github.com/fatedier/frp/verif"
 )
 
@@ -30,13 +32,13 @@ import (
 func verif_init() {
 	verif.ResetEvents()
 	verif.CallTarget()
-	verif.Ensures(msgCtl != nil, "codec_created")
+	verif.Ensures(verif.Same(msgCtl, verif.Ret[*jsonMsg.MsgCtl]("json.NewMsgCtl", 0)), "codec_is_the_one_created_here")
 	verif.Ensures(!verif.Called("SetMaxMsgLength"), "declared_length_bound_kept")
 }
 
 //verif:loopbody ~/pkg/msg.init#1 1 check=verifInitRegisters args=typeByte,msg
 func verifInitRegisters(typeByte byte, m any) bool {
-	return verif.CalledWithInIter("RegisterMsg", 1, typeByte) && verif.CalledWithInIter("RegisterMsg", 2, m)
+	return verif.CalledWithInIter("RegisterMsg", 0, msgCtl) && verif.CalledWithInIter("RegisterMsg", 1, typeByte) && verif.CalledWithInIter("RegisterMsg", 2, m)
 }
 
 // ReadMsg / WriteMsg / ReadMsgInto go through the one registered codec and hand
@@ -76,87 +78,164 @@ func verif_readLoop(d *Dispatcher) {
 	verif.Ensures(verif.CalledInIter("msg.ReadMsg") && verif.RetErr("msg.ReadMsg", 1) != nil, "returns_only_after_a_failed_read")
 }
 
+//verif:loop (*~/pkg/msg.Dispatcher).readLoop 1 inv=verifReadLoopInv args=d
+func verifReadLoopInv(d *Dispatcher) bool { return !verif.Closed(d.doneCh) }
+
 //verif:loopbody (*~/pkg/msg.Dispatcher).readLoop 1 check=verifReadLoopIter args=d
 func verifReadLoopIter(d *Dispatcher) bool {
-	return verif.CalledInIter("msg.ReadMsg") && verif.IterRet[error]("msg.ReadMsg", 1) == nil
+	if !verif.CalledInIter("msg.ReadMsg") || verif.IterRet[error]("msg.ReadMsg", 1) != nil {
+		return false
+	}
+	m := verif.IterRet[Message]("msg.ReadMsg", 0)
+	delivered := verif.CalledWithInIter("dyncall:pkg/msg.verifSpec_handler", 0, m) || verif.CalledWithInIter("dyncall:pkg/msg.verifSpec_defaultHandler", 0, m)
+	return delivered || d.defaultHandler == nil
+}
+
+// Handlers are unknown code. Assumed frame (listed in the evidence): a handler
+// may do anything except touch the dispatcher's private fields or close its
+// done channel - those are written only inside this package, and close(doneCh)
+// appears only in readLoop.
+//
+//verif:dyncall (*~/pkg/msg.Dispatcher).readLoop 1
+func verifSpec_handler(m Message) {
+	verif.HavocExcept("ChClosed@H.pkg.msg.Dispatcher.doneCh", "H.pkg.msg.Dispatcher.")
+}
+
+//verif:dyncall (*~/pkg/msg.Dispatcher).readLoop 2
+func verifSpec_defaultHandler(m Message) {
+	verif.HavocExcept("ChClosed@H.pkg.msg.Dispatcher.doneCh", "H.pkg.msg.Dispatcher.")
 }
 
 //verif:lemma
 //verif:props C17
-func verif_golden_type_bytes() {
+func verif_golden_registry_size() {
 	verif.Assert(len(msgTypeMap) == 18, "eighteen_registered_messages")
-	{
-		_, ok := msgTypeMap['o'].(Login)
-		verif.Assert(ok && TypeLogin == 'o', "byte_o_is_Login")
-	}
-	{
-		_, ok := msgTypeMap['1'].(LoginResp)
-		verif.Assert(ok && TypeLoginResp == '1', "byte_1_is_LoginResp")
-	}
-	{
-		_, ok := msgTypeMap['p'].(NewProxy)
-		verif.Assert(ok && TypeNewProxy == 'p', "byte_p_is_NewProxy")
-	}
-	{
-		_, ok := msgTypeMap['2'].(NewProxyResp)
-		verif.Assert(ok && TypeNewProxyResp == '2', "byte_2_is_NewProxyResp")
-	}
-	{
-		_, ok := msgTypeMap['c'].(CloseProxy)
-		verif.Assert(ok && TypeCloseProxy == 'c', "byte_c_is_CloseProxy")
-	}
-	{
-		_, ok := msgTypeMap['w'].(NewWorkConn)
-		verif.Assert(ok && TypeNewWorkConn == 'w', "byte_w_is_NewWorkConn")
-	}
-	{
-		_, ok := msgTypeMap['r'].(ReqWorkConn)
-		verif.Assert(ok && TypeReqWorkConn == 'r', "byte_r_is_ReqWorkConn")
-	}
-	{
-		_, ok := msgTypeMap['s'].(StartWorkConn)
-		verif.Assert(ok && TypeStartWorkConn == 's', "byte_s_is_StartWorkConn")
-	}
-	{
-		_, ok := msgTypeMap['v'].(NewVisitorConn)
-		verif.Assert(ok && TypeNewVisitorConn == 'v', "byte_v_is_NewVisitorConn")
-	}
-	{
-		_, ok := msgTypeMap['3'].(NewVisitorConnResp)
-		verif.Assert(ok && TypeNewVisitorConnResp == '3', "byte_3_is_NewVisitorConnResp")
-	}
-	{
-		_, ok := msgTypeMap['h'].(Ping)
-		verif.Assert(ok && TypePing == 'h', "byte_h_is_Ping")
-	}
-	{
-		_, ok := msgTypeMap['4'].(Pong)
-		verif.Assert(ok && TypePong == '4', "byte_4_is_Pong")
-	}
-	{
-		_, ok := msgTypeMap['u'].(UDPPacket)
-		verif.Assert(ok && TypeUDPPacket == 'u', "byte_u_is_UDPPacket")
-	}
-	{
-		_, ok := msgTypeMap['i'].(NatHoleVisitor)
-		verif.Assert(ok && TypeNatHoleVisitor == 'i', "byte_i_is_NatHoleVisitor")
-	}
-	{
-		_, ok := msgTypeMap['n'].(NatHoleClient)
-		verif.Assert(ok && TypeNatHoleClient == 'n', "byte_n_is_NatHoleClient")
-	}
-	{
-		_, ok := msgTypeMap['m'].(NatHoleResp)
-		verif.Assert(ok && TypeNatHoleResp == 'm', "byte_m_is_NatHoleResp")
-	}
-	{
-		_, ok := msgTypeMap['5'].(NatHoleSid)
-		verif.Assert(ok && TypeNatHoleSid == '5', "byte_5_is_NatHoleSid")
-	}
-	{
-		_, ok := msgTypeMap['6'].(NatHoleReport)
-		verif.Assert(ok && TypeNatHoleReport == '6', "byte_6_is_NatHoleReport")
-	}
+}
+
+//verif:lemma
+//verif:props C17
+func verif_golden_byte_Login() {
+	_, ok := msgTypeMap['o'].(Login)
+	verif.Assert(ok && TypeLogin == 'o', "byte_o_is_Login")
+}
+
+//verif:lemma
+//verif:props C17
+func verif_golden_byte_LoginResp() {
+	_, ok := msgTypeMap['1'].(LoginResp)
+	verif.Assert(ok && TypeLoginResp == '1', "byte_1_is_LoginResp")
+}
+
+//verif:lemma
+//verif:props C17
+func verif_golden_byte_NewProxy() {
+	_, ok := msgTypeMap['p'].(NewProxy)
+	verif.Assert(ok && TypeNewProxy == 'p', "byte_p_is_NewProxy")
+}
+
+//verif:lemma
+//verif:props C17
+func verif_golden_byte_NewProxyResp() {
+	_, ok := msgTypeMap['2'].(NewProxyResp)
+	verif.Assert(ok && TypeNewProxyResp == '2', "byte_2_is_NewProxyResp")
+}
+
+//verif:lemma
+//verif:props C17
+func verif_golden_byte_CloseProxy() {
+	_, ok := msgTypeMap['c'].(CloseProxy)
+	verif.Assert(ok && TypeCloseProxy == 'c', "byte_c_is_CloseProxy")
+}
+
+//verif:lemma
+//verif:props C17
+func verif_golden_byte_NewWorkConn() {
+	_, ok := msgTypeMap['w'].(NewWorkConn)
+	verif.Assert(ok && TypeNewWorkConn == 'w', "byte_w_is_NewWorkConn")
+}
+
+//verif:lemma
+//verif:props C17
+func verif_golden_byte_ReqWorkConn() {
+	_, ok := msgTypeMap['r'].(ReqWorkConn)
+	verif.Assert(ok && TypeReqWorkConn == 'r', "byte_r_is_ReqWorkConn")
+}
+
+//verif:lemma
+//verif:props C17
+func verif_golden_byte_StartWorkConn() {
+	_, ok := msgTypeMap['s'].(StartWorkConn)
+	verif.Assert(ok && TypeStartWorkConn == 's', "byte_s_is_StartWorkConn")
+}
+
+//verif:lemma
+//verif:props C17
+func verif_golden_byte_NewVisitorConn() {
+	_, ok := msgTypeMap['v'].(NewVisitorConn)
+	verif.Assert(ok && TypeNewVisitorConn == 'v', "byte_v_is_NewVisitorConn")
+}
+
+//verif:lemma
+//verif:props C17
+func verif_golden_byte_NewVisitorConnResp() {
+	_, ok := msgTypeMap['3'].(NewVisitorConnResp)
+	verif.Assert(ok && TypeNewVisitorConnResp == '3', "byte_3_is_NewVisitorConnResp")
+}
+
+//verif:lemma
+//verif:props C17
+func verif_golden_byte_Ping() {
+	_, ok := msgTypeMap['h'].(Ping)
+	verif.Assert(ok && TypePing == 'h', "byte_h_is_Ping")
+}
+
+//verif:lemma
+//verif:props C17
+func verif_golden_byte_Pong() {
+	_, ok := msgTypeMap['4'].(Pong)
+	verif.Assert(ok && TypePong == '4', "byte_4_is_Pong")
+}
+
+//verif:lemma
+//verif:props C17
+func verif_golden_byte_UDPPacket() {
+	_, ok := msgTypeMap['u'].(UDPPacket)
+	verif.Assert(ok && TypeUDPPacket == 'u', "byte_u_is_UDPPacket")
+}
+
+//verif:lemma
+//verif:props C17
+func verif_golden_byte_NatHoleVisitor() {
+	_, ok := msgTypeMap['i'].(NatHoleVisitor)
+	verif.Assert(ok && TypeNatHoleVisitor == 'i', "byte_i_is_NatHoleVisitor")
+}
+
+//verif:lemma
+//verif:props C17
+func verif_golden_byte_NatHoleClient() {
+	_, ok := msgTypeMap['n'].(NatHoleClient)
+	verif.Assert(ok && TypeNatHoleClient == 'n', "byte_n_is_NatHoleClient")
+}
+
+//verif:lemma
+//verif:props C17
+func verif_golden_byte_NatHoleResp() {
+	_, ok := msgTypeMap['m'].(NatHoleResp)
+	verif.Assert(ok && TypeNatHoleResp == 'm', "byte_m_is_NatHoleResp")
+}
+
+//verif:lemma
+//verif:props C17
+func verif_golden_byte_NatHoleSid() {
+	_, ok := msgTypeMap['5'].(NatHoleSid)
+	verif.Assert(ok && TypeNatHoleSid == '5', "byte_5_is_NatHoleSid")
+}
+
+//verif:lemma
+//verif:props C17
+func verif_golden_byte_NatHoleReport() {
+	_, ok := msgTypeMap['6'].(NatHoleReport)
+	verif.Assert(ok && TypeNatHoleReport == '6', "byte_6_is_NatHoleReport")
 }
 
 //verif:lemma
